@@ -380,6 +380,23 @@ def check_formula_case(case, tmp, T, R=None):
     status, res, _ = cli_call(case['tool'], argv, 'formula', stdin)
     if R is not None:
         R.stats['cli_calls'] += 1
+    if case.get('seed') is not None and status == 'ok' and hseed(case) % 3 == 0:
+        # a command line with --seed stands for ONE formula: the state the
+        # generator was in before the call (here: another one) must not matter,
+        # else there is no "the library call it stands for"
+        first = signature(res)
+        random.seed(hseed(case) ^ 0x5bd1e995)
+        random.random()
+        st2, res2, _ = cli_call(case['tool'], argv, 'formula', stdin)
+        if R is not None:
+            R.stats['cli_calls'] += 1
+            R.stats['seeded_command_lines_run_twice'] += 1
+        if st2 != 'ok' or formula_diff(first, signature(res2)) is not None:
+            bad('seeded-command-line-depends-on-earlier-random-state',
+                'argv=%r gives two different formulas under two states of the generator before the '
+                'call: %s' % (argv[1:], formula_diff(first, signature(res2)) if st2 == 'ok' else st2))
+            return out, 'violation'
+        status, res = st2, res2
     # ---- library side
     lib_refuses = None
     cands = None
